@@ -327,6 +327,17 @@ impl<'a, D: AsRef<[u8]>, P: AsRef<[usize]>> Lend<'a, D, P> {
     }
 
     pub fn new_from(rca: &'a RearCodedList<D, P>, from: usize) -> Self {
+        if from == rca.len() {
+            // Nothing to decode: the lender is exhausted. Note that there is
+            // no block, hence no pointer, starting at position rca.len() when
+            // it is a multiple of k (in particular, for the empty list).
+            return Lend {
+                rca,
+                index: from,
+                data: &[],
+                buffer: Vec::with_capacity(128),
+            };
+        }
         let block = from / rca.k;
         let offset = from % rca.k;
 
